@@ -85,6 +85,7 @@ class Contract:
         self.statement = a.get("statement", None)  # lemma: lambda over args -> bool
         self.inline = tuple(a.get("inline", ()))
         self.note = a.get("note", "")
+        self.assumes = tuple(a.get("assumes", ()))  # unchecked assumptions of this contract, listed in the evidence
         self.result_name = a.get("result_name", "result")
         self.frame_after = a.get("post_state", None)
         self.finite_scope = a.get("finite_scope", None)
